@@ -9,6 +9,7 @@
 import PolyVerif.Lemmas.MeshWF
 import PolyVerif.Lemmas.MeshWF3
 import PolyVerif.Lemmas.MeshTransformsWF
+import PolyVerif.Lemmas.MarchingWF
 import PolyVerif.Lemmas.PrimIdx
 
 namespace PolyVerif.C02
@@ -109,6 +110,17 @@ theorem cube_wf {m : MeshVal α} (h : IsPrim m cubeVerts cubeTris) : WF m :=
   prim_wf h cubeTris_ok.1 cubeTris_ok.2
 theorem cubeUnwelded_wf {m : MeshVal α} (h : IsPrim m cubeUnweldedVerts cubeUnweldedTris) : WF m :=
   prim_wf h cubeUnweldedTris_ok.1 cubeUnweldedTris_ok.2
+
+/-! ### marching cubes: vertex / index allocation (`LookupOrAdd`), abstractly -/
+
+/-- The block mesher allocates vertices through `LookupOrAdd` and appends the three returned indices
+    per emitted triangle: whatever triangles the case table and the interpolation emit, and whatever
+    the rounding key is, the block mesh is well-formed. (Abstract model of canvas.go:37-47, 650-662;
+    tied to the code by the `WF` oracle on `March` output only.) -/
+theorem marchBlock_wf {V K : Type} [DecidableEq K] (key : V → K) (attr : AttrKey) (ts : List (V × V × V)) :
+    WF (March.blockMesh attr (March.marchBlock key ts)) := March.blockMesh_wf key attr ts
+
+example : (March.marchBlock (fun v : Nat => v / 10) [(1, 12, 25), (3, 27, 40)]).tris = [0, 1, 2, 0, 2, 3] := by decide
 
 /-! ## Operations: `WF m → WF (op m)` (or the operation rejects) -/
 
@@ -253,6 +265,27 @@ theorem laplacian_wf {m m' : MeshVal (List s)} (h : WF m) {n : String} {iters : 
     (hm : m.laplacian n iters factor = some m') : WF m' := MeshVal.laplacian_wf h hm
 
 end transforms
+
+/-- `marchFloat1` folds the block meshes with `Append` from the empty mesh: the result is well-formed
+    for every list of blocks (each well-formed by `marchBlock_wf`). -/
+theorem march_wf {zero : Nat → α} {t : Topology} (blocks : List (MeshVal α)) (hb : ∀ b ∈ blocks, WF b) {r : MeshVal α}
+    (hr : blocks.foldl (fun acc b => acc.bind fun a => append zero a b) (some (MeshVal.empty t)) = some r) : WF r := by
+  suffices hgen : ∀ (bs : List (MeshVal α)) (acc : Option (MeshVal α)), (∀ b ∈ bs, WF b) → (∀ a, acc = some a → WF a) →
+      ∀ r, bs.foldl (fun acc b => acc.bind fun a => append zero a b) acc = some r → WF r from
+    hgen blocks _ hb (fun a ha => by cases ha; exact MeshVal.empty_wf _) r hr
+  intro bs
+  induction bs with
+  | nil => intro acc _ hacc r hr; exact hacc r hr
+  | cons b bs ih =>
+    intro acc hbs hacc r hr
+    simp only [List.foldl_cons] at hr
+    apply ih _ (fun b' hb' => hbs b' (by simp [hb'])) _ r hr
+    intro a ha
+    cases hacc' : acc with
+    | none => simp [hacc'] at ha
+    | some a0 =>
+      simp only [hacc', Option.bind_some] at ha
+      exact append_wf (hacc a0 hacc') (hbs b (by simp)) ha
 
 /-! ## Any finite composition of operations -/
 
